@@ -61,12 +61,15 @@ def identList (s : List Char) : PRes (List Ident) :=
     let r := identTail rest.length rest
     .ok (a :: r.1) r.2
 
+/-- `opt(literal("-"))` -/
+def stripHyphen (s : List Char) : List Char :=
+  match s with
+  | '-' :: t => t
+  | _ => s
+
 /-- `pre_release()`: `preceded(opt("-"), separated(1.., identifier, "."))` -/
 def preRelease (s : List Char) : PRes (List Ident) :=
-  let s' := match s with
-    | '-' :: t => t
-    | _ => s
-  match identList s' with
+  match identList (stripHyphen s) with
   | .ok a r => .ok a r
   | .err e => .err (e.withCtx "pre_release version")
 
@@ -117,13 +120,16 @@ def versionCore (s : List Char) : PRes (Nat × Nat × Nat) :=
 
 def dropBlanks (s : List Char) : List Char := (span isBlank s).2
 
+/-- `opt(alt((literal("v"), literal("V"))))` -/
+def stripVV (s : List Char) : List Char :=
+  match s with
+  | 'v' :: t => t
+  | 'V' :: t => t
+  | _ => s
+
 /-- `version()`: `(opt(alt("v","V")), space0, version_core, extras, space0, eof)`; context "version" -/
 def versionP (s : List Char) : PRes Version :=
-  let s1 := match s with
-    | 'v' :: t => t
-    | 'V' :: t => t
-    | _ => s
-  let s2 := dropBlanks s1
+  let s2 := dropBlanks (stripVV s)
   match versionCore s2 with
   | .err e => .err (e.withCtx "version")
   | .ok (a, b, c) r =>
